@@ -68,10 +68,16 @@ def run_history(ctor, ops, warm=(), probe=None):
         return "ctor-err " + err_name(e)
     outs = []
     last_qrdata = None
+    failed_make = False
     for op in ops:
         t = op.split("~")
+        render_snap = None
         try:
             k = t[0]
+            if probe is not None and failed_make and (k in ("getm", "ascii", "tty") or (k == "img" and isinstance(q.box_size, int) and q.box_size > 0)):
+                # a rendering call directly after a make() that RAISED compiles implicitly: what it shows must be what a fresh
+                # object with the same data and settings compiles (fitting on), or it fails with the same error
+                render_snap = (q._version, q.error_correction, q.mask_pattern, [(s.mode, bytes(s.data)) for s in q.data_list])
             if k == "add":
                 d = bytes(int(x) for x in t[1].split(",")) if t[1] != "-" else b""
                 q.add_data(d, optimize=int(t[2])); o = "u"
@@ -157,6 +163,9 @@ def run_history(ctor, ops, warm=(), probe=None):
             o = "e:Exception"
         except Exception as e:  # noqa
             o = "e:" + err_name(e)
+        if render_snap is not None:
+            probe(render_snap, True, ("err", o[2:]) if o.startswith("e:") else ("ok", q.version, [row[:] for row in q.modules]), len(outs))
+        failed_make = t[0] == "make" and o.startswith("e:")
         outs.append(o)
     st = "S:{}:{}:{}:{}:{}:{}:{}:{}:{}:{}".format(q._version or 0, q.error_correction, fmt_opt_int(q.mask_pattern), q.border, q.box_size,
                                                  len(q.data_list), hash_segs(q.data_list), 1 if q.data_cache is not None else 0,
